@@ -182,10 +182,10 @@ func (n *Node[K, V]) delete(b *BsTree[K, V], key K) (*Node[K, V], error) {
 // Traverse iterates over the tree structure and invokes the callback function provided as a parameter.
 func (b *BsTree[K, V]) Traverse(fn func(Item[K, V])) {
 	ch := make(chan Item[K, V])
-	n := b.root
 	go func() {
+		// The root is read under the lock, like the rest of the tree.
 		b.mu.RLock()
-		n.traverse(b, ch)
+		b.root.traverse(b, ch)
 		b.mu.RUnlock()
 
 		close(ch)
